@@ -14,6 +14,8 @@ import Pandora.Proofs.C08Agree
 import Pandora.Proofs.C08Bound
 import Pandora.Proofs.C08Scan
 import Pandora.Proofs.C08Term
+import Pandora.Proofs.C08Fault
+import Pandora.Proofs.C08Bisim
 import Pandora.Bridge.ProvLoops
 import Pandora.Drv.C08
 
@@ -413,6 +415,204 @@ theorem C08_load_lines (style : Style) (f : Lines) (hn : 0 < f.count true) :
   have := loadLines_ok style f hn (f.count true + 1) 0 LDec.init (RLines_init f) (by omega)
   simpa using this
 
+/-- **the concurrent machine runs on the line-level decoder too** — `Model.C08Mach.stepOf` (the iteration every
+interleaving theorem is about) runs `runFullScan` on the entry-level decoder `scanStream`; over the line-level decoder
+of `Model.C08Scan` (round function regenerated from uri.go / uripost.go / raw.go / jsonline.go) on ANY file with `n ≥ 1`
+entry lines and any non-entry lines anywhere, the same iteration from a related state (same passes behind, same entries
+of the current pass behind, same number delivered) does the same — same result of `Run`, or the same ammo on offer —
+and leads to related states again; the initial states are related.  So every schedule of the machine is step by step a
+schedule over the real file layout. -/
+theorem C08_lines_step (inp : Input) (f : Lines) (hn : 0 < f.count true) (c : Bool) (ld : LDec) (d : Dec) (k : Nat)
+    (hrel : SrcRel (f.count true) inp.b.passes (RLines f) (RStream (f.count true)) (ld, k) (d, k)) :
+    ActRel (SrcRel (f.count true) inp.b.passes (RLines f) (RStream (f.count true)))
+      (streamStep (scanFileRes (styleOf inp.kind) ⟨0, inp.b.passes⟩ f) (·.passNum) inp.b.limit c ld k)
+      (streamStep (scanStream (styleOf inp.kind) ⟨0, inp.b.passes⟩ (f.count true)) Dec.passNumOf inp.b.limit c d k) ∧
+    stepOf inp (f.count true) c (.stream d k) =
+      liftAct (fun p => .stream p.1 p.2)
+        (streamStep (scanStream (styleOf inp.kind) ⟨0, inp.b.passes⟩ (f.count true)) Dec.passNumOf inp.b.limit c d k) ∧
+    SrcRel (f.count true) inp.b.passes (RLines f) (RStream (f.count true)) (LDec.init, 0) (Dec.init, 0) := by
+  have hsrc : Src (scanStream (styleOf inp.kind) ⟨0, inp.b.passes⟩ (f.count true)) (f.count true) inp.b.passes
+      (RStream (f.count true)) := by
+    cases hs : styleOf inp.kind
+    · exact src_eofCheck _ _ hn
+    · exact src_topCheck _ _ hn
+  refine ⟨?_, rfl, rfl, 0, 0, Nat.zero_le _, by omega, RLines_init f, RStream_init _⟩
+  exact streamStep_bisim _ _ _ _ _ _ hn _ _ (src_lines _ _ f hn) hsrc
+    (fun q r s h => h.2.2.1) (fun q r t h => h.2.1) _ c ld d k hrel
+
+/-! ## round 3: faults — an I/O error of the ammo file at any point, a Close that fails, no Close at all
+
+`freach inp n cons ls` is the state after a schedule over the labels of the interleaving theorems PLUS `ioerr`: the
+operation on the ammo file that `Run`'s loop is about to make (a read, a seek, the open) fails, at any position of
+the schedule, together with any cancel.  `finishOf k r cl` is the deferred cleanup of `Run` (http: REGENERATED path by
+path, `Bridge.ProvLoops.httpFinish_eq`) for the three outcomes `cl` of closing the ammo file. -/
+
+/-- **whatever fails, the invariants of the property survive** — in every interleaving with I/O faults: what was
+acquired followed by what is in the channel is a prefix of the cyclic file, never more than `min⁺(limit, passes·n)`,
+never more in the channel than its capacity; the sink is closed exactly when `Run` has returned, and consumers see the
+end only then, with the channel drained. -/
+theorem C08_fault_safe (inp : Input) (n cons : Nat) (hn : 0 < n) (ls : List FLabel) :
+    (freach inp n cons ls).s.acquired ++ (freach inp n cons ls).s.buf = cyc n (freach inp n cons ls).s.sent ∧
+    (∀ m, Spec.C08.expected inp.b.limit inp.b.passes n = some m → (freach inp n cons ls).s.sent ≤ m) ∧
+    (freach inp n cons ls).s.buf.length ≤ inp.kind.chanCap ∧
+    ((freach inp n cons ls).s.closed = true ↔ (freach inp n cons ls).s.result.isSome = true) ∧
+    ((freach inp n cons ls).s.ended ≠ [] → (freach inp n cons ls).s.closed = true ∧ (freach inp n cons ls).s.buf = []) := by
+  have hi := fInv_reach inp n cons hn ls
+  generalize freach inp n cons ls = f at hi ⊢
+  unfold FInv at hi
+  have key : f.s.acquired ++ f.s.buf = cycl n f.s.sent ∧ Below inp.b n f.s.sent ∧ f.s.buf.length ≤ inp.kind.chanCap ∧
+      (f.s.closed = true ↔ f.s.result.isSome = true) ∧ (f.s.ended ≠ [] → f.s.closed = true ∧ f.s.buf = []) := by
+    by_cases hf : f.faulted = true
+    · simp only [hf, if_true] at hi
+      exact ⟨hi.seq, hi.below, hi.bufcap, by simp [hi.res, hi.closed], hi.ended⟩
+    · simp only [hf] at hi
+      refine ⟨hi.seq, hi.below, hi.bufcap, ?_, hi.ended⟩
+      cases hr : f.s.result with
+      | none => simp [(hi.running hr).1]
+      | some r => simp [(hi.returned r hr).1]
+  obtain ⟨k1, k2, k3, k4, k5⟩ := key
+  refine ⟨k1, ?_, k3, k4, k5⟩
+  intro m hm
+  obtain ⟨_, h3⟩ := atBound_of_expected inp.b n m hn hm
+  obtain ⟨h1, h2⟩ := k2
+  rcases h3 with ⟨h0, h4⟩ | ⟨h0, h4⟩
+  · rcases h1 with h1 | h1 <;> omega
+  · rcases h2 with h2 | h2 <;> omega
+
+/-- **no consumer stays blocked, whatever made `Run` return** — bound, cancel or I/O error: once it has returned every
+consumer that has not yet seen the end of ammo completes its Acquire at once (an ammo still in the channel, or ok=false). -/
+theorem C08_fault_released (inp : Input) (n cons : Nat) (hn : 0 < n) (ls : List FLabel)
+    (h : (freach inp n cons ls).s.result.isSome = true) (c : Nat) (hc : c < cons) (hne : c ∉ (freach inp n cons ls).s.ended) :
+    ((freach inp n cons ls).next inp n inp.kind.chanCap cons (.sys (.recv c))).isSome = true ∨
+    ((freach inp n cons ls).next inp n inp.kind.chanCap cons (.sys (.eoa c))).isSome = true := by
+  have hcl := ((C08_fault_safe inp n cons hn ls).2.2.2.1).mpr h
+  cases hb : (freach inp n cons ls).s.buf with
+  | nil => right; simp [FSys.next, Sys.next, hcl, hb, hc, hne]
+  | cons i rest => left; simp [FSys.next, Sys.next, hb, hc, hne]
+
+/-- **an I/O error ends `Run` at once** — from any reachable state in which the loop is about to touch the ammo file,
+the failing operation makes `Run` return (no retry, no spin) with the sink closed. -/
+theorem C08_fault_returns (inp : Input) (n cons : Nat) (ls : List FLabel)
+    (hres : (freach inp n cons ls).s.result = none) (hoff : (freach inp n cons ls).s.offering = none)
+    (hrd : (freach inp n cons ls).s.ps.readsFile = true) :
+    ∃ f', (freach inp n cons ls).next inp n inp.kind.chanCap cons .ioerr = some f' ∧
+      f'.s.result = some .errOther ∧ f'.s.closed = true ∧ f'.faulted = true := by
+  refine ⟨_, by simp only [FSys.next, hres, hoff, hrd]; simp; rfl, rfl, finishOf_closes _ _ _, rfl⟩
+
+/-- **what `Run` returns** — nil only at the bound, Canceled only after a cancel, an error only after an I/O error
+(`faulted` ⇔ the loop ended with one); a run that met neither a cancel nor a fault has sent exactly
+`min⁺(limit, passes·n)`: an I/O error is never swallowed into a short, "clean" run. -/
+theorem C08_fault_result (inp : Input) (n cons : Nat) (hn : 0 < n) (ls : List FLabel) (r : RunRes)
+    (h : (freach inp n cons ls).s.result = some r) :
+    (r = .nil ∨ ((freach inp n cons ls).s.cancelled = true ∧ r = .canceled) ∨
+      ((freach inp n cons ls).faulted = true ∧ r = .errOther)) ∧
+    ((freach inp n cons ls).faulted = true ↔ r = .errOther) ∧
+    (r = .nil → (freach inp n cons ls).s.cancelled = false →
+      Spec.C08.expected inp.b.limit inp.b.passes n = some (freach inp n cons ls).s.sent) := by
+  have hfi := faulted_iff inp n cons hn ls
+  have hi := fInv_reach inp n cons hn ls
+  rw [h] at hfi
+  generalize freach inp n cons ls = f at hi h hfi ⊢
+  unfold FInv at hi
+  have hfi' : f.faulted = true ↔ r = .errOther := by
+    rw [hfi]; constructor
+    · intro e; cases e; rfl
+    · intro e; rw [e]
+  refine ⟨?_, hfi', ?_⟩
+  · by_cases hf : f.faulted = true
+    · exact Or.inr (Or.inr ⟨hf, hfi'.mp hf⟩)
+    · simp only [hf] at hi
+      obtain ⟨_, _, h3⟩ := hi.returned r h
+      rcases h3 with ⟨h3, _⟩ | ⟨hc, h3 | h3⟩
+      · exact Or.inl h3
+      · exact Or.inr (Or.inl ⟨hc, h3⟩)
+      · unfold doneResOf at h3
+        split at h3
+        · exact Or.inr (Or.inl ⟨hc, h3⟩)
+        · exact Or.inl h3
+  · intro hnil hnc
+    have hf : ¬ f.faulted = true := by rw [hfi', hnil]; simp
+    simp only [hf] at hi
+    obtain ⟨_, _, h3⟩ := hi.returned r h
+    rcases h3 with ⟨_, h4⟩ | ⟨hc, _⟩
+    · exact expected_of_atBound _ _ _ hn h4
+    · rw [hnc] at hc; cases hc
+
+/-- **the deferred cleanup** (http family: regenerated path by path from `Provider.Run`; the other families close the
+sink by a deferred statement of its own and drop the result of closing the file) — whatever the loop's result and
+whatever closing the ammo file gives (no Close function, success, an error): the sink is closed; Close is called
+exactly when there is one; the caller gets the loop's own result unless Close failed in the http family, where the
+failure is always reported (`none` = an error that names the fault) — so `Run` = nil means: clean loop AND clean close. -/
+theorem C08_fault_finish (k : Kind) (r : RunRes) (cl : CloseOut) :
+    (finishOf k r cl).closesSink = true ∧
+    (finishOf k r cl).callsClose = decide (cl ≠ .absent) ∧
+    ((cl ≠ .fails ∨ k.isHttp = false) → finalClass k r cl = if r = .errOther then none else some r) ∧
+    (k.isHttp = true → finalClass k r .fails = none) ∧
+    (finalClass k r cl = some .nil → r = .nil ∧ (cl ≠ .fails ∨ k.isHttp = false)) := by
+  refine ⟨finishOf_closes k r cl, finishOf_calls k r cl, finalClass_keep k r cl, finalClass_fails k r, ?_⟩
+  intro h
+  by_cases hc : cl ≠ .fails ∨ k.isHttp = false
+  · rw [finalClass_keep k r cl hc] at h
+    split at h
+    · cases h
+    · simp only [Option.some.injEq] at h; exact ⟨h, hc⟩
+  · have h1 : cl = .fails := by
+      cases cl <;> simp_all
+    have h2 : k.isHttp = true := by
+      cases hk : k.isHttp <;> simp_all
+    rw [h1, finalClass_fails k r h2] at h
+    cases h
+
+/-- **conservative** — a schedule without a fault is a schedule of the system of the interleaving theorems -/
+theorem C08_fault_none (inp : Input) (n cons : Nat) (ls : List Label) :
+    (freach inp n cons (ls.map FLabel.sys)).s = reach inp n cons ls ∧
+    (freach inp n cons (ls.map FLabel.sys)).faulted = false := by
+  unfold freach reach
+  rw [frun_sys]
+  exact ⟨rfl, rfl⟩
+
+/-- **the Spec's fault clauses hold of the model** — for every reachable state of the system with faults in which
+`Run` has returned, with any outcome of Close: the observation a drained cell gives (everything acquired, every
+consumer released) satisfies `Spec.C08.faultHolds`' structural clauses: the sink is closed, the count is within the
+bound, the result is nil / Canceled / the reported fault, nil without a cancel means the exact bound. -/
+theorem C08_fault_spec (inp : Input) (n cons : Nat) (hn : 0 < n) (ls : List FLabel) (r : RunRes) (cl : CloseOut)
+    (h : (freach inp n cons ls).s.result = some r) :
+    (freach inp n cons ls).s.closed = true ∧
+    (∀ m, Spec.C08.expected inp.b.limit inp.b.passes n = some m → (freach inp n cons ls).s.acquired.length ≤ m) ∧
+    (finalClass inp.kind r cl = some .nil ∨ finalClass inp.kind r cl = some .canceled ∨ finalClass inp.kind r cl = none) ∧
+    (finalClass inp.kind r cl = some .canceled → (freach inp n cons ls).s.cancelled = true) ∧
+    (finalClass inp.kind r cl = some .nil → (freach inp n cons ls).s.cancelled = false →
+      Spec.C08.expected inp.b.limit inp.b.passes n = some (freach inp n cons ls).s.sent) := by
+  obtain ⟨s1, s2, _, s4, _⟩ := C08_fault_safe inp n cons hn ls
+  obtain ⟨r1, _, r3⟩ := C08_fault_result inp n cons hn ls r h
+  have hfin := C08_fault_finish inp.kind r cl
+  refine ⟨s4.mpr (by simp [h]), ?_, ?_, ?_, ?_⟩
+  · intro m hm
+    have := s2 m hm
+    simp only [Sys.sent, Sys.acquired, List.length_map] at this ⊢
+    omega
+  · by_cases hc : cl ≠ .fails ∨ inp.kind.isHttp = false
+    · rw [hfin.2.2.1 hc]
+      rcases r1 with r1 | ⟨_, r1⟩ | ⟨_, r1⟩ <;> simp [r1]
+    · have h1 : cl = .fails := by cases cl <;> simp_all
+      have h2 : inp.kind.isHttp = true := by cases hk : inp.kind.isHttp <;> simp_all
+      rw [h1, hfin.2.2.2.1 h2]; simp
+  · intro hcan
+    by_cases hc : cl ≠ .fails ∨ inp.kind.isHttp = false
+    · rw [hfin.2.2.1 hc] at hcan
+      split at hcan
+      · cases hcan
+      · simp only [Option.some.injEq] at hcan
+        rcases r1 with r1 | ⟨hcc, _⟩ | ⟨_, r1⟩
+        · rw [r1] at hcan; cases hcan
+        · exact hcc
+        · rw [r1] at hcan; cases hcan
+    · have h1 : cl = .fails := by cases cl <;> simp_all
+      have h2 : inp.kind.isHttp = true := by cases hk : inp.kind.isHttp <;> simp_all
+      rw [h1, hfin.2.2.2.1 h2] at hcan; cases hcan
+  · intro hnil hnc
+    exact r3 (hfin.2.2.2.2 hnil).1 hnc
+
 /-! non-vacuity: concrete cells, evaluated by the kernel -/
 example : (run ⟨.jsonArray, false, ⟨0, 1⟩, none⟩ 1).map (·.delivered) = some [0] := by decide
 example : (run ⟨.uri, true, ⟨2, 0⟩, none⟩ 3).map (fun o => (o.delivered, o.run, o.sinkClosed)) = some ([0, 1], .nil, true) := by decide
@@ -453,5 +653,17 @@ example : effSteps ⟨.uri, true, ⟨3, 0⟩, none⟩ 2 0 2 (Sys.init ⟨.uri, t
 example : (reach ⟨.httpScenario, false, ⟨0, 0⟩, none⟩ 3 1 ([.prod, .push, .prod, .push] ++ [.cancel])).buf.length = 2 ∧
     (reach ⟨.httpScenario, false, ⟨0, 0⟩, none⟩ 3 1 ([.prod, .push, .prod, .push] ++ [.cancel])).cancelled = true ∧
     Kind.ctxTop .httpScenario = true := by decide
+
+-- round 3: an I/O error in the middle of the second pass of a raw file read by two consumers, after a cancel …
+example : let f := freach ⟨.raw, false, ⟨0, 0⟩, none⟩ 2 2 [.sys .prod, .sys (.hand 1), .sys .prod, .sys (.hand 0), .sys .prod, .sys (.hand 1), .sys .cancel, .ioerr, .sys (.eoa 0)]
+    (f.s.acquired, f.s.result, f.s.closed, f.faulted, f.s.ended) = ([0, 1, 0], some .errOther, true, true, [0]) := by decide
+-- … hypotheses of C08_fault_returns: the loop of a grpc/json provider between two lines
+example : let f := freach ⟨.grpcJson, false, ⟨0, 0⟩, none⟩ 3 1 [.sys .prod, .sys .push]
+    (f.s.result, f.s.offering, f.s.ps.readsFile) = (none, none, true) := by decide
+-- … the fault label is not enabled while preloaded ammo are replayed (no file operation any more)
+example : ((freach ⟨.uri, true, ⟨0, 0⟩, none⟩ 2 1 [.sys .prod]).next ⟨.uri, true, ⟨0, 0⟩, none⟩ 2 0 1 .ioerr).isNone = true := by decide
+-- … the deferred cleanup: a cancelled http run whose Close fails reports the fault; grpc/json drops it
+example : finalClass .uri .canceled .fails = none ∧ finalClass .grpcJson .nil .fails = some .nil ∧
+    finalClass .raw .nil .absent = some .nil ∧ (finishOf .jsonLines .canceled .fails).closesSink = true := by decide
 
 end Pandora.Props.C08
